@@ -39,7 +39,8 @@ theorem finish_plain (c : Cfg) (ar aq : Nat) (s : S) (b : Base c ar aq s) (hrun 
     · simp only [how, Bool.false_eq_true, if_false]
       simp only [Bool.not_eq_true] at how
       obtain ⟨hup, hrs, hlc, hph, h24⟩ := hfw hur how
-      exact upreset_branch c ar aq s b hrun hcl how h3 h6 hpd hsr hp0 hup hrs hlc hrst hph h24 (fun hh => by simp [hdir] at hh)
+      exact upreset_branch c ar aq s b hrun hcl how h3 h6 hpd hsr (by omega) (fun _ => hp0) (fun _ => hp0) hlc hrst
+        (fun hq => absurd hq hph) (fun _ => h24) (fun hh => by simp [hdir] at hh)
   · simp only [hur, Bool.false_eq_true, if_false]
     simp only [Bool.not_eq_true] at hur
     unfold peTail
@@ -183,12 +184,33 @@ theorem finish_inv (c : Cfg) (ar aq : Nat) (s : S) (h : Inv c ar aq s) (hrun : s
   by_cases hstarted : s.upReset = true ∧ upPhase s.phase = true
   · obtain ⟨hur, hupp⟩ := hstarted
     obtain ⟨_, _, hwhere, _, hrst, _, _⟩ := h.k15 hcl hupp
-    have hrst' : s.respStarted = true := by
-      rw [hrst]; rcases hwhere hur with hp | hp <;> simp [hp]
     have how : c.oneway = false := by
       cases ho : c.oneway with
       | false => rfl
       | true => have := (h.k32 hcl ho).1; rw [hupp] at this; cases this
+    by_cases hpf : s.phase = .UpFilter
+    · -- [proxy7] the reset was raised while the sender filters ran: nothing went downstream yet, it may be retried
+      have hurr : s.urr = true := by
+        rcases hwhere hur with hp | hp | hp
+        · rw [hpf] at hp; cases hp
+        · rw [hpf] at hp; cases hp
+        · exact hp.2
+      have hrst0 : s.respStarted = false := by rw [hrst, hpf]; decide
+      rw [finishPhase_eq, processError_spec, if_neg (by simp [hcl]), if_pos hur, if_neg (by simp [how])]
+      apply upreset_branch c ar aq s h.base hrun hcl how h.k3 h.k6 hpd hsr (h.k8 hcl).1 (fun hq => absurd hpf hq)
+        (fun hq => h.k25 hcl how hq) (h.k23 hcl (Or.inl hur)) hrst0 (fun _ => hurr)
+      · intro hrs hq
+        rcases h.k24 hcl how hq hrs with hh | hh | hh
+        · exact Or.inl hh
+        · exact Or.inr hh
+        · rw [hdir] at hh; cases hh
+      · intro hh; rw [hdir] at hh; cases hh
+    have hrst' : s.respStarted = true := by
+      rw [hrst]
+      rcases hwhere hur with hp | hp | hp
+      · simp [hp]
+      · simp [hp]
+      · exact absurd hp.1 hpf
     exact finish_started c ar aq s h.base hcl how h.k3 h.k6 hpd hur hrst' (h.k23 hcl (Or.inl hur))
   have hfwd : s.upReset = true → fwdPhase s.phase = true := by
     intro hur
